@@ -170,4 +170,12 @@ example : (cli Eff.none ["skip-prune"]).map Eff.toList = some [.echo, .models, .
 example : cli Eff.none ["chi", "gin"] = none := by decide
 example : cli Eff.none ["chi", "bogus"] = none := by decide
 
+
+/-- TAB: for every combination of `-old-config-style`, kind of configuration file (old-only, new-only, readable as
+both, readable as neither) and presence of a deprecated flag, the tool built from the working tree settles on the
+style `detectStyle` prescribes (or refuses where it refuses); all 16 combinations are in the table. (Without a file
+both styles read the same flags and cannot be told apart from outside.) -/
+theorem C20_detect_table : Gen.C20.detectRows.all detectRowOk = true ∧ Gen.C20.detectRows.length = 16 := by
+  decide +kernel
+
 end OapiVerif.Cli
